@@ -21,7 +21,8 @@ from ..core import clist, cstr
 ID = "C13"
 THEOREMS = ["C13_parse_format", "C13_format_parse_canonical", "C13_canonical_format", "C13_parse_meaning",
             "C13_parse_reserves", "C13_parse_refuses", "C13_never_unspecified",
-            "C13_split_characterised", "C13_decimal_round_trip", "C13_defaults_tie"]
+            "C13_split_characterised", "C13_decimal_round_trip", "C13_defaults_tie",
+            "C13_source_parse_tps_eq", "C13_source_parse_total", "C13_source_format_tps_eq", "C13_source_parse_format", "C13_source_format_parse_canonical", "C13_source_parse_meaning", "C13_source_parse_refuses"]
 MODEL_TARGETS = ["model/Tak.vo", "model/Harness.vo", "model/Lit.vo", "model/Tps.vo"]
 TRUSTED_BASE = [
     "CPython str.split / str.join / str.isascii / str.isdigit / int() / str() on the strings involved (modelled in "
@@ -796,3 +797,25 @@ def replay(run, rp):
     failing, shard_fail, _ = cs.run()
     return {"violates": bool(why or failing or shard_fail), "oracle": why, "model_disagrees": bool(failing), "impl": j_obs(o),
             "model_view": cs.model_view(cs.terms[0])}
+
+
+# ---- translator tie (T): the C13_source_* theorems quantify over gen/TpsGen.v (parse_tps/format_tps regenerated from the
+# source by harness/py2coq.py against model/PySem.v); t13's correspondence validates PySem.v's string semantics.
+def pregen(run):
+    from . import t13
+    return t13.pregen(run)
+
+
+from . import t13 as _t13  # noqa: E402
+
+MODEL_TARGETS = sorted(set(list(MODEL_TARGETS) + list(_t13.MODEL_TARGETS)))
+TRUSTED_BASE = list(TRUSTED_BASE) + [
+    "translator harness/py2coq.py and model/PySem.v (str.split/join/isascii/isdigit, int() with its digit limit, str(), "
+    "list semantics), validated against CPython and the implementation on every run",
+]
+_c13_correspondence = correspondence
+
+
+def correspondence(run):
+    _c13_correspondence(run)
+    _t13.correspondence(run)
